@@ -143,6 +143,13 @@ func genPosition(rng *PRNG, terminalPct int) (string, *rules.Pos) {
 			return "position startpos moves " + strings.Join(ms, " "), p
 		}
 	}
+	if rng.Intn(100) < 3 {
+		// the side to move is being mated within a few moves (several legal moves)
+		f := lostRoots[rng.Intn(len(lostRoots))]
+		if p, err := rules.ParseFen(f); err == nil && p.Sane() && len(p.LegalMoves()) > 1 {
+			return "position fen " + f, p
+		}
+	}
 	if rng.Intn(100) < 7 {
 		// a draw by rule within reach of the search (not at the root): the
 		// half-move clock a few plies before 100, or every position of a
@@ -196,6 +203,19 @@ func genPosition(rng *PRNG, terminalPct int) (string, *rules.Pos) {
 		cmd += " moves " + strings.Join(ms, " ")
 	}
 	return cmd, p
+}
+
+// lostRoots: the mover is forcibly mated within the horizon of a shallow search.
+var lostRoots = []string{
+	"8/8/8/8/8/4K3/R7/5k2 b - - 0 1",
+	"2k5/8/2K5/8/8/8/8/7R b - - 0 1",
+	"5K2/r7/4k3/8/8/8/8/8 w - - 0 1",
+	"r7/8/8/8/8/2k5/8/2K5 w - - 0 1",
+	"3k4/8/3K4/8/8/8/8/R7 b - - 0 1",
+	"7k/8/5K2/8/8/8/8/6QR b - - 0 1",
+	"k7/8/1K6/8/8/8/8/1Q5R b - - 0 1",
+	"6k1/5ppp/8/8/8/8/8/K2RR3 b - - 0 1",
+	"1k6/ppp5/8/8/8/8/8/3RR2K b - - 0 1",
 }
 
 // genNearRuleDraw returns a non-terminal root from which moves inside the
